@@ -347,3 +347,23 @@ MANIFEST_TEXT["C11"] = {
     "technique": "runtime monitoring: metamorphic relations over transformed presentations and disjoint unions, 20-300 arguments",
 }
 NOT_APPLICABLE[:] = [e for e in NOT_APPLICABLE if e["property_id"] not in ("C11",)]
+
+PROPS["C05"] = {
+    "level": "exploration",
+    "rule": "cases = real process runs of `crustabri solve` and of the ICCMA'23 wrapper. Success path: generated instance files in both formats (comments, CRLF, duplicate declarations, surrounding spaces, Aspartix names different from ranks, n = 0) x all 21 problems (random letter case) x arguments x {reader flag, --encoding none/aux_var/exp/hybrid, -c / --with-certificate, --logging-level off/info}: exit status 0, stdout (log lines starting with `![` removed when logging is on) exactly the status line and/or one witness line in the writer's grammar, status equal to the brute-force oracle, witness a valid extension with respect to the argument. Error path: 20 kinds of malformed invocation (missing -f/-p, missing/unreadable file, directory, ill-formed file of each listed category, unknown or garbled problem strings, DC/DS without -a, unknown / 0 / n+1 / non-numeric / empty argument, unknown option, bad reader, bad encoding, wrong reader for the file, unknown sub-command): non-zero exit status and no answer-shaped stdout line. `problems` / `--problems`: exactly the 21 problems, each accepted in any letter case, unlisted strings rejected. Non-trivial: an instance with an argument that is credulously but not skeptically accepted or without stable extension; or a distinct (binary, error kind, arguments) error run; distinct by hash.",
+    "assumptions": ["brute-force oracle on the file's abstract framework (n <= 9)", "answer-shaped line = ^(YES|NO|w( \\S+)*|\\[[^\\]]*\\])$; `-h`, no argument at all (authors), a superfluous -a for SE problems and --encoding on GR/ST are documented non-errors and are not in the error matrix", "the binaries are the plain `cargo build --release` of /repo's working tree"],
+    "thresholds": {
+        "quick": {"evaluations": 8000, "distinct_nontrivial": 500,
+                  "counters": {"success_runs/crustabri/SE": 800, "success_runs/crustabri/DC": 1500, "success_runs/crustabri/DS": 1500,
+                               "success_runs/crustabri_iccma23/DC": 500, "success_runs/logging-on": 400,
+                               "error_runs/crustabri/unknown-argument": 200, "error_runs/crustabri/ill-formed-file": 100,
+                               "error_runs/crustabri_iccma23/unknown-argument": 40, "problems_listings_checked": 10, "listed_problems_tried": 200}},
+        "thorough": {"evaluations": 250000, "distinct_nontrivial": 10000, "counters": {}},
+    },
+}
+MANIFEST_TEXT["C05"] = {
+    "level_text": "Process-boundary monitoring: the two binaries are run as real processes on generated instance files and malformed invocations; exit status and stdout are compared with what the semantics (brute-force oracle) and the competition format dictate, byte-exact for the status lines and by grammar + validity for witnesses.",
+    "design_ref": "DESIGN.md section 5, C05", "level_note": "Trusted: oracle, answer grammar. Each run costs ~50 ms (process start), so the quick tier samples problems x options rather than the full product.",
+    "technique": "runtime monitoring: CLI transcripts (exit status, stdout) against reference semantics and an error matrix",
+}
+NOT_APPLICABLE[:] = [e for e in NOT_APPLICABLE if e["property_id"] not in ("C05",)]
